@@ -6,6 +6,7 @@ import MoSql.Query
 import MoSql.Lex
 import MoSql.Window
 import MoSql.Skip
+import MoSql.Dml
 /-
 Line-protocol driver: one JSON request per line on stdin, one JSON answer per line on stdout.
 Imports the model files and Lean's JSON library only (no Mathlib), so it is also built as the
@@ -321,6 +322,27 @@ def handleSkip (req : Json) : Except String String := do
   let text ← req.getObjValAs? String "text"
   pure ("{\"n\":" ++ toString (Skip.skipCount text) ++ "}")
 
+def handleInsert (req : Json) : Except String String := do
+  let cols : Option (List String) := match req.getObjVal? "cols" with
+    | .ok (.arr xs) => some (xs.toList.filterMap fun j => match j with | .str s => some s | _ => none)
+    | _ => none
+  let rowsJ ← req.getObjVal? "rows"
+  let rows ← match rowsJ with
+    | .arr rs => rs.toList.mapM fun r =>
+        match r with
+        | .arr cells => cells.toList.mapM fun c =>
+            match c with
+            | .arr #[.str "lit", .bool t] => pure (Dml.Cell.lit () t)
+            | .arr #[.str "other"] => pure (Dml.Cell.other ())
+            | _ => err "bad cell"
+        | _ => err "bad row"
+    | _ => err "rows must be a list"
+  let shape := match Dml.toInsert cols rows with
+    | .valuesDicts _ => "valuesDicts"
+    | .valuesLists _ => "valuesLists"
+    | .query _ _ => "query"
+  pure ("{\"shape\":\"" ++ shape ++ "\"}")
+
 def handle (line : String) : String :=
   match Json.parse line with
   | .error e => "{\"error\":" ++ jstr ("json: " ++ e) ++ "}"
@@ -336,6 +358,7 @@ def handle (line : String) : String :=
       | .ok "lex" => handleLex req
       | .ok "frame" => handleFrame req
       | .ok "skip" => handleSkip req
+      | .ok "insert" => handleInsert req
       | .ok "fmtTable" => pure handleFmtTable
       | .ok "ping" => pure "{\"pong\":true}"
       | .ok o => err ("unknown op " ++ o)
